@@ -14,7 +14,7 @@ ASSUMPTIONS = [
     "attribute deletion through a link is not part of the statement and is not generated",
 ]
 GATES = ["mon.C20.shadow", "mon.C20.structure", "C20.link_to_link", "C20.link_other_tree", "C20.ctor_kwargs", "C20.ctor_kwargs_on_link_target", "C20.write_via_link", "C20.write_via_target",
-         "C20.missing_attr_raises", "C20.struct_on_link", "C20.struct_on_target", "C20.veto", "C20.falsy_target", "C20.property_target", "C20.equal_but_distinct_value", "C20.target_reassigned", "C20.refused_by_target"]
+         "C20.missing_attr_raises", "C20.struct_on_link", "C20.struct_on_target", "C20.veto", "C20.falsy_target", "C20.property_target", "C20.equal_but_distinct_value", "C20.target_reassigned", "C20.refused_by_target", "C20.target_not_in_instance_dict"]
 
 NAMES = ["foo", "bar", "baz", "x1", "value_", "lng", "k9", "_p", "__q", "name", "été", "data", "t", "get", "tar", "a",
          # names that merely start with / contain one of the three structural names
@@ -92,7 +92,9 @@ class Hist:
         t = rng.randrange(i)
         kw = {}
         use_kw = rng.random() < 0.6
-        cls = F.HSym if (use_kw or rng.random() < 0.5) else F.HSymMixin
+        cls = F.HSym if (use_kw or rng.random() < 0.5) else F.LINK_VARIANTS[rng.choice(sorted(F.LINK_VARIANTS))]
+        if cls is not F.HSym and cls is not F.HSymMixin:
+            self.ctx.count("C20.target_not_in_instance_dict")
         if use_kw and cls is F.HSym:
             for _ in range(rng.randint(1, 2)):
                 nm = rng.choice(NAMES)
